@@ -187,6 +187,7 @@ func (x *Exec) inline(st *State, callee *ssa.Function, args []Value, bindings []
 // havocCall models a call about which nothing is known: every heap component
 // is replaced by a fresh one and the result is arbitrary.
 func (x *Exec) havocCall(st *State, name string, resT types.Type) Value {
+	st.Heap.forgetMaps()
 	for k := range st.Heap.comps {
 		st.Heap.comps[k] = x.C.Fresh("havoc$"+k, compSort(k, x.compSorts[k]))
 	}
@@ -239,9 +240,27 @@ func (x *Exec) builtin(st *State, name string, args []Value, resT types.Type, po
 				return Value{T: resT, L: []*Term{c.BVI(at.Len(), 64)}}
 			}
 		case *types.Map:
+			if keys, ok := st.Heap.mapKeys[v.L[0].ID]; ok && x.Opt.Paths {
+				// every entry is known on this path: count the keys that are still present
+				pn, ps := x.mapPresent(st, u)
+				n, decided := int64(0), true
+				for _, k := range keys {
+					present := c.Select(c.Select(x.comp(st, pn, ps), v.L[0]), x.mapKey(u, k))
+					if present.IsTrue() {
+						n++
+					} else if !present.IsFalse() {
+						decided = false
+					}
+				}
+				if decided {
+					return Value{T: resT, L: []*Term{c.BVI(n, 64)}}
+				}
+			}
 			f := c.DeclareFun("map.len", []*Sort{RefSort, IntSort}, IdxSort)
 			x.Notes.Assumed["len(map) is an uninterpreted function of the map and an update counter"] = true
-			return Value{T: resT, L: []*Term{c.App(f, v.L[0], c.Fresh("maplen.epoch", IntSort))}}
+			ln := c.App(f, v.L[0], c.Fresh("maplen.epoch", IntSort))
+			x.assume(st, c.BVCmp("bvsle", c.BVI(0, 64), ln))
+			return Value{T: resT, L: []*Term{ln}}
 		}
 		panic(unsupported("len/cap of " + v.T.String()))
 	case "append":
@@ -725,6 +744,9 @@ func (x *Exec) contractEnv(ct *Contract, callee *ssa.Function, args []Value, st,
 
 // applyContract replaces a call by the callee's contract.
 func (x *Exec) applyContract(st *State, ct *Contract, callee *ssa.Function, args []Value, resT types.Type, pos token.Pos) Value {
+	if !ct.Pure {
+		st.Heap.forgetMaps() // the callee may change maps behind the executor's back
+	}
 	c := x.C
 	name := ct.Func
 	if ct.Trusted || ct.Function {
